@@ -188,6 +188,11 @@ def do_replay(prop: str, path: str) -> int:
         from .props import gateway as gprops
         gprops.replay_c10_restored(case)
         return 0
+    if "quiet_sessions" in case:
+        # C06: the write log over whole sessions of a gateway with a persistence file (enter, idle, lines, leave)
+        from .props import quietwrites
+        quietwrites.replay(case)
+        return 0
     if "c08_sessions" in case:
         # real `async with gateway:` statements around an interrupted release (C08): re-executed on the implementation
         import asyncio
